@@ -75,7 +75,9 @@ func run(e *core.Env) {
 	// one router may overtake each other: at the lock boundaries of router/ and state/
 	// (import-path overlay sync -> simsync) a seeded coin hands the processor to another
 	// runnable goroutine.
-	if every := []int{0, 0, 2, 3, 5}[tp.Intn(5)]; every > 0 {
+	// (The hook is always installed: without a coin it only acts on the switch points that a
+	// burst of two frames draws for itself.)
+	if every := []int{0, 0, 2, 3, 5}[tp.Intn(5)]; true {
 		ys := tp.Uint64() | 1
 		var ymu sync.Mutex
 		switches := 0
@@ -104,7 +106,7 @@ func run(e *core.Env) {
 			z = (z ^ (z >> 27)) * 0x94d049bb133111eb
 			z ^= z >> 31
 			ymu.Unlock()
-			if z%uint64(every) == 0 {
+			if every > 0 && z%uint64(every) == 0 {
 				switches++
 				runtime.Gosched()
 			}
@@ -114,7 +116,9 @@ func run(e *core.Env) {
 			simsync.Blocking = false
 			e.ProbeN("lock_boundary_task_switches", switches)
 		})
-		e.Fault("task_switch")
+		if every > 0 {
+			e.Fault("task_switch")
+		}
 	}
 	A, B := ms.Nodes[0], ms.Nodes[nNodes-1]
 	ai, bi := 0, nNodes-1
@@ -270,6 +274,77 @@ func run(e *core.Env) {
 			}
 		}
 		return
+	}
+
+	// Focused opening in an eighth of the runs (two routers): X starts a setup and Y serves it; Y
+	// then loses its keys again before its response has arrived (what the "no encryption keys"
+	// error ping of X does to it when Y's first traffic overtakes the response) and starts a
+	// setup of its own - its request travels behind its response. Both reach X in the same
+	// instant and are handled by two of X's workers; then X's response reaches Y.
+	if nNodes == 2 && tp.Chance(1, 5) {
+		X, Y, xn, yn := A, B, "A", "B"
+		if tp.Chance(1, 2) {
+			X, Y, xn, yn = B, A, "B", "A"
+		}
+		sendHello(X, Y, xn)
+		for _, p := range pump() {
+			if p.To.Local == Y {
+				noteDelivery(p)
+				ms.Net.Deliver(p)
+			}
+		}
+		_ = Y.State.SetEncryptionSession(X.IP, nil)
+		history = append(history, yn+".forgets-keys")
+		e.Fault("session_reset")
+		sendHello(Y, X, yn)
+		var toX []*simnet.Packet
+		for _, p := range pump() {
+			if p.To.Local == X {
+				toX = append(toX, p)
+			}
+		}
+		if len(toX) >= 2 {
+			for _, p := range toX[:2] {
+				_, fu := isHello(p, parser)
+				history = append(history, fmt.Sprintf("deliver-at-once(%s->%s resp=%v)", p.From.Local.Name, p.To.Local.Name, fu))
+				noteDelivery(p)
+				ms.Net.Remove(p)
+			}
+			if tp.Chance(2, 3) {
+				// (the worker that was woken last runs first: mostly the response is handed
+				// over second, so that its worker is the one that gets ahead)
+				toX[0], toX[1] = toX[1], toX[0]
+			}
+			toX[0].NoDelay, toX[1].NoDelay = true, true
+			burstOps, switchAt = 0, [2]int{1 + tp.Intn(60), 200 + tp.Intn(2)*(tp.Intn(100)-199)}
+			if e.Trace {
+				e.Logf("former-server opening: switch points %v", switchAt)
+			}
+			ms.Net.DeliverRaw(toX[0])
+			ms.Net.DeliverRaw(toX[1])
+			simnet.Wait()
+			switchAt = [2]int{}
+			e.Probe("response_and_new_request_of_the_former_server_handled_at_once")
+			e.Nontrivial()
+			// what X answered reaches Y; once nothing of the setups is in flight the claim applies
+			for guard := 0; guard < 8; guard++ {
+				hs := pump()
+				if len(hs) == 0 {
+					break
+				}
+				for _, p := range hs {
+					noteDelivery(p)
+					ms.Net.Deliver(p)
+				}
+			}
+			if e.Trace {
+				xs, ys := X.State.GetSession(Y.IP), Y.State.GetSession(X.IP)
+				e.Logf("former-server opening: X=%s Y=%s ops=%d xUp=%v yUp=%v pending=%d", xn, yn, burstOps, xs != nil && xs.Encryption().IsSetUp(), ys != nil && ys.Encryption().IsSetUp(), len(pump()))
+			}
+			if len(pump()) == 0 {
+				check("after the former server's own setup")
+			}
+		}
 	}
 
 	// Focused opening in a fifth of the runs: both routers start a setup; the request of the
